@@ -131,7 +131,7 @@ fn invalid_box(rng: &mut Rng) -> RawBox {
 /// returns (kind, boxes without scores, suggested threshold for the boundary stream)
 fn scene(rng: &mut Rng, n: usize) -> (&'static str, Vec<RawBox>, Option<f32>) {
     let mut v = Vec::new();
-    let kind = rng.below(10);
+    let kind = rng.below(12);
     match kind {
         0 => {
             for _ in 0..n {
@@ -237,6 +237,37 @@ fn scene(rng: &mut Rng, n: usize) -> (&'static str, Vec<RawBox>, Option<f32>) {
             }
             rng.shuffle(&mut v);
             ("objects", v, None)
+        }
+        10 | 11 => {
+            // same-angle cluster: oblong boxes sharing ONE non-zero angle (bit-equal), centres offset along and across
+            // the common long axis - the geometry in which a frame mix-up of the overlap computation shows
+            let a = match rng.below(4) {
+                0 => std::f32::consts::FRAC_PI_4,
+                1 => std::f32::consts::FRAC_PI_6,
+                2 => (rng.range(1, 31) as f32) * std::f32::consts::PI / 32.0,
+                _ => (0.2 + rng.unit_f64() * 2.8) as f32,
+            };
+            let (c, sn) = ((a as f64).cos() as f32, (a as f64).sin() as f32);
+            let thick = *rng.pick(&[2.0f32, 2.0, 3.0, 4.0]);
+            let aspect = *rng.pick(&[2.0f32, 3.0, 5.0, 5.0, 8.0]);
+            let len = thick * aspect;
+            let groups = 1 + rng.below(3) as usize;
+            for i in 0..n {
+                let g = (i % groups) as f32;
+                // offset along the long axis: fractions of the length; across: fractions of the thickness
+                let along = len * *rng.pick(&[0.0f32, 0.1, 0.25, 0.3, 0.5, 0.7, 0.9, 1.1, -0.3, -0.6]);
+                let across = thick * *rng.pick(&[0.0f32, 0.0, 0.2, 0.5, 0.8, 1.1, 1.5, -0.4, -1.1]);
+                let (gx, gy) = (20.0 + 4.0 * len * g, 20.0);
+                v.push(RawBox {
+                    xc: gx + along * c - across * sn,
+                    yc: gy + along * sn + across * c,
+                    angle: Some(a),
+                    aspect: if rng.chance(1, 5) { *rng.pick(&[2.0f32, 3.0, 5.0]) } else { aspect },
+                    height: if rng.chance(1, 5) { thick + rng.dyadic(-2, 4, 2) } else { thick },
+                    score: None,
+                });
+            }
+            ("same-angle", v, None)
         }
         _ => {
             // chain: each box overlaps the next one strongly (suppression by an excluded box must NOT happen)
@@ -393,6 +424,16 @@ fn main() {
             let ut = |x: f32, y: f32, a: f32, h: f32| RawBox { xc: x, yc: y, angle: None, aspect: a, height: h, score: None };
             run_case(k, "corpus-unit-test", 0.8, None, &[ut(0.0, 0.0, 1.0, 5.0), ut(0.0, 0.0, 1.05, 5.1), ut(0.0, 0.0, 1.0, 4.9), ut(3.0, 4.0, 1.0, 4.5)]);
             k += 1;
+            // two oblong boxes (10 x 2) sharing the angle pi/4: shifted by 3 along the long axis (70% covered), and by 2.2 across it (disjoint)
+            {
+                let q = std::f32::consts::FRAC_PI_4;
+                let r = std::f32::consts::FRAC_1_SQRT_2;
+                let ob = |x: f32, y: f32, s: f32| RawBox { xc: x, yc: y, angle: Some(q), aspect: 5.0, height: 2.0, score: Some(s) };
+                run_case(k, "corpus-same-angle-along", 0.5, None, &[ob(0.0, 0.0, 0.9), ob(3.0 * r, 3.0 * r, 0.8)]);
+                k += 1;
+                run_case(k, "corpus-same-angle-across", 0.1, None, &[ob(0.0, 0.0, 0.9), ob(-2.2 * r, 2.2 * r, 0.8)]);
+                k += 1;
+            }
             run_case(k, "corpus-empty", 0.5, None, &[]);
             k += 1;
             while k < a.n {
